@@ -284,6 +284,7 @@ class RadiRouter:
         self.radidict.remove(route_pattern)
         if route:
             del self.routes[route.pattern]
+            self._remove_named_routers({route.pattern})
         else:
             if route_pattern.endswith('*'):
                 route_pattern = route_pattern[:-1]
